@@ -115,7 +115,8 @@ def buffered(R, prog):
             sig_mine = lambda ev: ev.kind == 'call' and ev.callee() == 'photon::semaphore::signal' and (ev.recv_path() or '').endswith(mysem)
             sleep = lambda ev: ev.kind == 'call' and (ev.callee() or '').startswith('photon::semaphore::wait') and (ev.recv_path() or '').endswith(mysem)
             seen = an.SeenTracker([('reg', reg, ('recheck',)), ('dereg', dereg, ('reg',)), ('recheck', qtouch), ('signalled', sig_other)])
-            gt = an.GuardTracker(lambda k: True)
+            # what was learnt about the shared queue before sleeping is stale after the sleep
+            gt = an.GuardTracker(lambda k: True, kill=lambda ev, key: sleep(ev) and 'm_queue' in key)
             res = an.run(G, [seen, gt])
             okq = re.compile(r'^G:this->m_queue->%s\(.*\)=T$' % qop)
             K.check_at(R, P + '.K6', G, res, sig_other,
@@ -135,9 +136,10 @@ def buffered(R, prog):
             if nm == 'buffered_recv':
                 closed_ret = lambda ev: ev.kind == 'return' and ev.depth == 0 and ev.f.const(ev.e['sub']) == 0
                 K.check_at(R, P + '.K8', G, res, closed_ret,
-                           require=lambda st, ev: any(re.match(r'^G:this->m_queue->pop\(.*\)=F$', x) for x in st),
+                           require=lambda st, ev: any(re.match(r'^G:this->m_queue->pop\(.*\)=F$', x) for x in st) or
+                           any(('errno == 110' in x or 'expired()' in x) and x.endswith('=T') for x in st),
                            key_fn=lambda ev, fn=fn: '%s.K8:%s:false-only-after-failed-pop' % (P, fn),
-                           describe=lambda ev: 'recv reports closed/timeout only after a pop failed (buffered items drained first)', min_sites=2, what='return false')
+                           describe=lambda ev: 'recv reports closed only after a pop that failed since it last slept (a woken receiver re-examines the buffer: items sent before close() are drained); timeouts excepted', min_sites=2, what='return false')
             if nm in ('buffered_send', 'buffered_recv'):
                 K.check_at(R, P + '.K4', G, res, lambda ev: (ev.kind == 'return' and ev.depth == 0) or ev.kind == 'exit',
                            require=lambda st, ev: 'S:reg' not in st,
